@@ -725,12 +725,15 @@ def traverse(node):
         child = traversing.child
         child_id = id(child)
 
-        if child_id in visited:
-            continue
-
-        visited.add(child_id)
         stack.append(traversing._replace(is_finished=True))
         yield traversing
+
+        # Only expand a shared object or container the first time we see it.
+        # (Leaf values don't count: equal leaves are often the same object.)
+        if isinstance(child, (list, tuple, dict, ParsedObject)):
+            if child_id in visited:
+                continue
+            visited.add(child_id)
 
         def extend(items):
             stack.extend(reversed(list(items)))
